@@ -2,9 +2,9 @@ package main
 
 import (
 	"fmt"
-	"regexp"
 	"go/token"
 	"go/types"
+	"regexp"
 	"sort"
 	"strings"
 
@@ -870,7 +870,6 @@ func c19Determinism(c *Check) {
 	gGlobals(c, "C19.G")
 	c19Misc(c, R)
 }
-
 
 var localNameRE = regexp.MustCompile(`(new#|phi#|\?|#)?t[0-9]+@\{[^}]*\}`)
 
